@@ -4,25 +4,26 @@ From Verif Require Import Base.Util Model.Runner Model.RetryQueue Model.Pipeline
      Proofs.RunnerProofs Proofs.RetryQueueProofs Proofs.PipelineProofs Gen.Generated.
 Open Scope N_scope.
 
-(* Eligible results: for every flow, cache, payload list, pipeline, batch-failure pattern and
-   completion order, one Process call stages (flows with a result store) resp. proposes (the two
+(* Eligible results: for every flow, cache, payload list, pipeline, batch-failure pattern,
+   completion order and whichever sinks refuse (state updater failing for the work ids ufail, retry
+   queue for qfail: every post-processor of the chain still runs on the whole result list), one Process call stages (flows with a result store) resp. proposes (the two
    proposal flows) exactly the successfully checked eligible results — cached hits and results of
    batches that succeeded — and nothing at all when the runner reports that every batch failed. *)
 Theorem C12_eligible :
-  forall pipe bfail cexp wlimit, (0 < wlimit)%nat ->
+  forall pipe bfail cexp wlimit ufail qfail, (0 < wlimit)%nat ->
   forall k c cnt t pls ord, (forall bs, Permutation (map fst (ord bs)) bs) ->
   exists bs, unflatten (jobs_of c cnt t pls) wlimit = Some bs /\
-    match snd (process pipe bfail cexp wlimit true k c cnt t pls ord) with
+    match snd (process pipe bfail cexp wlimit ufail qfail true k c cnt t pls ord) with
     | Some sk =>
         Permutation (sk_staged sk) (if has_stage k then filter elig_ok (checked pipe bfail c cnt t pls bs) else [])
         /\ Permutation (sk_props sk) (if has_prop k then filter elig_ok (checked pipe bfail c cnt t pls bs) else [])
     | None => bs <> [] /\ forall b, In b bs -> bfail b = true
     end.
 Proof.
-  intros pipe bfail cexp wlimit Hw k c cnt t pls ord Hord.
-  destruct (process_routes pipe bfail cexp wlimit Hw k c cnt t pls ord Hord) as [bs [H1 H2]].
+  intros pipe bfail cexp wlimit ufail qfail Hw k c cnt t pls ord Hord.
+  destruct (process_routes pipe bfail cexp wlimit ufail qfail Hw k c cnt t pls ord Hord) as [bs [H1 H2]].
   exists bs. split; [exact H1|].
-  destruct (snd (process pipe bfail cexp wlimit true k c cnt t pls ord)); [|exact H2].
+  destruct (snd (process pipe bfail cexp wlimit ufail qfail true k c cnt t pls ord)); [|exact H2].
   destruct H2 as [_ [A [_ [B _]]]]. split; assumption.
 Qed.
 Print Assumptions C12_eligible.
@@ -31,14 +32,14 @@ Print Assumptions C12_eligible.
    ineligible results, in the flows that have the ineligible post-processor (log trigger, retry,
    final recovery, recovery proposal); never in the conditional flows. *)
 Theorem C12_ineligible :
-  forall pipe bfail cexp wlimit, (0 < wlimit)%nat ->
+  forall pipe bfail cexp wlimit ufail qfail, (0 < wlimit)%nat ->
   forall k c cnt t pls ord, (forall bs, Permutation (map fst (ord bs)) bs) ->
   exists bs, unflatten (jobs_of c cnt t pls) wlimit = Some bs /\
-    forall sk, snd (process pipe bfail cexp wlimit true k c cnt t pls ord) = Some sk ->
+    forall sk, snd (process pipe bfail cexp wlimit ufail qfail true k c cnt t pls ord) = Some sk ->
     Permutation (sk_inelig sk) (if has_inelig k then filter inelig_ok (checked pipe bfail c cnt t pls bs) else []).
 Proof.
-  intros pipe bfail cexp wlimit Hw k c cnt t pls ord Hord.
-  destruct (process_routes pipe bfail cexp wlimit Hw k c cnt t pls ord Hord) as [bs [H1 H2]].
+  intros pipe bfail cexp wlimit ufail qfail Hw k c cnt t pls ord Hord.
+  destruct (process_routes pipe bfail cexp wlimit ufail qfail Hw k c cnt t pls ord Hord) as [bs [H1 H2]].
   exists bs. split; [exact H1|]. intros sk Hs. rewrite Hs in H2. destruct H2 as [_ [_ [A _]]]. exact A.
 Qed.
 Print Assumptions C12_ineligible.
@@ -46,16 +47,17 @@ Print Assumptions C12_ineligible.
 (* Retry: with a pipeline that answers every payload of a batch once under the payload's work
    id, block and hash, and non-empty work ids, every retryable failure of a call enqueues a
    payload of that call with the same work id and trigger block/hash and the result's own
-   interval, in order; nothing else is enqueued, no error, no panic. *)
+   interval, in order; nothing else is enqueued, no panic, and the only errors are those the sinks returned. *)
 Theorem C12_retry_own_payload :
-  forall pipe bfail cexp wlimit, (0 < wlimit)%nat ->
+  forall pipe bfail cexp wlimit ufail qfail, (0 < wlimit)%nat ->
   forall (P : result -> Prop) k c cnt t pls ord,
   (forall bs, Permutation (map fst (ord bs)) bs) -> pipe_wf pipe -> cache_wf P c ->
   (forall p, In p pls -> pl_wid p <> 0) -> has_retry k = true ->
-  forall sk, snd (process pipe bfail cexp wlimit true k c cnt t pls ord) = Some sk ->
-  sk_err sk = false /\ sk_panic sk = false /\
+  forall sk, snd (process pipe bfail cexp wlimit ufail qfail true k c cnt t pls ord) = Some sk ->
+  sk_panic sk = false /\
   exists rs, snd (check pipe bfail cexp wlimit c cnt t pls ord) = Ok rs
-             /\ Forall2 (pairs_own pls) (filter retry_fail rs) (sk_enq sk).
+             /\ Forall2 (pairs_own pls) (filter retry_fail rs) (sk_enq sk)
+             /\ sk_err sk = sink_err ufail qfail k rs (sk_enq sk).
 Proof. exact process_retry_own. Qed.
 Print Assumptions C12_retry_own_payload.
 
@@ -76,7 +78,7 @@ Theorem C12_retry_refuted :
     /\ (forall bs, Permutation (map fst (ord bs)) bs)
     /\ snd (check (spipe sc) (sfail sc) 1000 10 c [] 5%Z pls ord) = Ok rs
     /\ filter retry_fail rs = [rB]
-    /\ (exists sk, snd (process (spipe sc) (sfail sc) 1000 10 false KLog c [] 5%Z pls ord) = Some sk
+    /\ (exists sk, snd (process (spipe sc) (sfail sc) 1000 10 [] [] false KLog c [] 5%Z pls ord) = Some sk
                    /\ sk_enq sk = [(pA, r_ivl rB)])
     /\ pl_wid pA <> r_wid rB
     /\ ~ Forall2 (pairs_own pls) (filter retry_fail rs) [(pA, r_ivl rB)].
@@ -87,9 +89,9 @@ Print Assumptions C12_retry_refuted.
 Theorem C12_retry_out_of_range_refuted :
   exists sc pls ord,
     (forall bs, Permutation (map fst (ord bs)) bs)
-    /\ (exists sk, snd (process (spipe sc) (sfail sc) 1000 10 false KLog [] [] 5%Z pls ord) = Some sk
+    /\ (exists sk, snd (process (spipe sc) (sfail sc) 1000 10 [] [] false KLog [] [] 5%Z pls ord) = Some sk
                    /\ sk_panic sk = true)
-    /\ (exists sk, snd (process (spipe sc) (sfail sc) 1000 10 true KLog [] [] 5%Z pls ord) = Some sk
+    /\ (exists sk, snd (process (spipe sc) (sfail sc) 1000 10 [] [] true KLog [] [] 5%Z pls ord) = Some sk
                    /\ sk_panic sk = false /\ length (sk_enq sk) = 2%nat).
 Proof. exact retry_positional_out_of_range. Qed.
 Print Assumptions C12_retry_out_of_range_refuted.
@@ -175,7 +177,7 @@ Example C12_nonvacuous :
   let c : cache := [(1, (resA, 0%Z))] in
   let ord := fun bs : list (list job) => map (fun b => (b, 6%Z)) bs in
   (forall bs, Permutation (map fst (ord bs)) bs)
-  /\ snd (process (spipe sc) (sfail sc) 1000 10 true KLog c [] 5%Z [pB; pA] ord)
+  /\ snd (process (spipe sc) (sfail sc) 1000 10 [] [] true KLog c [] 5%Z [pB; pA] ord)
      = Some (mkSinks [resA] [] [] [(pB, 7%Z)] false false)
   /\ snd (q_run 30 1000 [QEnq 6 [(pB, 7%Z)]; QDeq 13 10 []; QDeq 14 10 []; QDeq 20 10 []])
      = [EDeq 20 []; EDeq 14 [pB]; EDeq 13 []; EEnq 6 (pB, 7%Z)].
